@@ -583,6 +583,76 @@ long sysconf(int name) {
     return real ? real(name) : -1;
 }
 
+/* ---- scheduling points for concurrent groups ------------------------------------------
+ * While a thread of the host is a member of a concurrent group it registers a hook.  Every
+ * heap allocation of that thread is then a point where the host's seeded scheduler may hand
+ * the baton to another member (why = 0), and a futex wait -- the thread is about to block
+ * on a lock or a Once another member holds -- is a point where it *must* (why = 1): the
+ * wait is turned into a spurious wake-up after the other member has run, which every
+ * futex-based primitive tolerates.  Without a registered hook nothing changes.            */
+extern void *__libc_malloc(size_t);
+typedef int (*sim_sched_fn)(void *arg, int why);
+static __thread sim_sched_fn t_sched __attribute__((tls_model("initial-exec")));
+static __thread void *t_sched_arg __attribute__((tls_model("initial-exec")));
+static __thread int t_in_sched __attribute__((tls_model("initial-exec")));
+static uint64_t g_alloc_points, g_block_points;
+
+void sim_set_sched_hook(sim_sched_fn f, void *arg) { t_sched = f; t_sched_arg = arg; }
+uint64_t sim_sched_points(int which) { return which ? g_block_points : g_alloc_points; }
+
+void *malloc(size_t n) {
+    void *p = __libc_malloc(n);
+    if (t_sched && !t_in_sched) {
+        t_in_sched = 1;
+        __sync_fetch_and_add(&g_alloc_points, 1);
+        t_sched(t_sched_arg, 0);
+        t_in_sched = 0;
+    }
+    return p;
+}
+
+static long raw_syscall6(long n, long a, long b, long c, long d, long e, long f) {
+    long ret;
+    register long r10 __asm__("r10") = d;
+    register long r8 __asm__("r8") = e;
+    register long r9 __asm__("r9") = f;
+    __asm__ volatile("syscall" : "=a"(ret) : "a"(n), "D"(a), "S"(b), "d"(c), "r"(r10), "r"(r8), "r"(r9) : "rcx", "r11", "memory");
+    return ret;
+}
+
+long syscall(long number, ...) {
+    va_list ap;
+    long a[6];
+    va_start(ap, number);
+    for (int i = 0; i < 6; i++) a[i] = va_arg(ap, long);
+    va_end(ap);
+    if (number == SYS_futex && t_sched && !t_in_sched) {
+        int op = (int)a[1] & 127; /* without FUTEX_PRIVATE_FLAG / FUTEX_CLOCK_REALTIME */
+        if (op == 0 /* FUTEX_WAIT */ || op == 9 /* FUTEX_WAIT_BITSET */) {
+            if (*(volatile uint32_t *)a[0] != (uint32_t)a[2]) {
+                errno = EAGAIN;
+                return -1;
+            }
+            t_in_sched = 1;
+            int switched = t_sched(t_sched_arg, 1);
+            t_in_sched = 0;
+            /* (waits of the scheduler's own mutex and condition variable also come through
+             * here and are declined by the host: how many there are depends on real timing,
+             * so only the waits that became switches are counted) */
+            if (switched) {
+                __sync_fetch_and_add(&g_block_points, 1);
+                return 0;
+            }
+        }
+    }
+    long r = raw_syscall6(number, a[0], a[1], a[2], a[3], a[4], a[5]);
+    if (r < 0 && r >= -4095) {
+        errno = (int)-r;
+        return -1;
+    }
+    return r;
+}
+
 #endif /* SIM_MINIMAL */
 
 /* ---- interface for the host binary (looked up with dlsym(RTLD_DEFAULT, ...)) ---- */
